@@ -41,7 +41,7 @@ PROPS = {
                     'scanner/scalar parsers they reuse) for all byte strings; recursion through parentheses bounded by the '
                     'nesting budget (decreases MAX_NESTING_DEPTH - depth).'),
         not_decided=('Termination of evaluation (WildcardEq::eval ref-chain loop, Relation::eval through the namespace); '
-                     'Parser::parse (closure capturing self; trusted: one call to read and one to parse_or); the reader is '
+                     'the reader is '
                      'assumed to fail only at end of input (filters are parsed from in-memory strings); '
                      'c_api::haystack_filter_parse.'),
     ),
